@@ -101,15 +101,17 @@ impl<'a> ::vstd::std_specs::convert::FromSpecImpl<&'a ChildParentData> for Child
 //@end
 
 
-// ASSUMED (String -> &str conversions): prefix string of a child path
-//@stub attr.rs ChildPath::get_child_path_str ::= fn get_child_path_str(&self, depth: Option<usize>) -> &str
-impl ChildPath {
-    #[verifier::external_body]
-    fn get_child_path_str(&self, depth: Option<usize>) -> (r: &str)
-        requires depth is Some ==> depth->0 < self.child_path_str@.len(),
-        ensures r@ == cps(self, depth),
-    { unimplemented!() }
-}
+// prefix string of a child path (the real function: Vec::last / index, String::as_str)
+//@fn attr.rs ChildPath::get_child_path_str
+//@props C03,C16
+//@spec
+    requires depth is Some ==> depth->0 < self.child_path_str@.len(), // #depth-within-path [C16]
+    ensures r@ == cps(self, depth), // #path-prefix-at-depth
+//@closure 0
+    |x: &String| -> (r: &str) ensures r@ == x@
+//@proof
+    reveal_strlit("");
+//@end
 
 // the #[child_parents] entry describing the nested struct at `path`, if any
 spec fn q_cpd<'a>(path: Seq<char>) -> spec_fn(&'a ChildParentData) -> bool { |x: &'a ChildParentData| x.field_path_str@ == path }
